@@ -526,8 +526,10 @@ func (s *Snapshotter) compact() error {
 	// tryAppend retry the compaction, instead of dereferencing a nil handle.
 	s.fh.Close()
 
-	// Delete the old file
-	if err := os.Remove(s.path); err != nil {
+	// Delete the old file. It is already gone when an earlier compaction
+	// removed it and then failed to move the new file into place; that must
+	// not stop this compaction from installing a new snapshot.
+	if err := os.Remove(s.path); err != nil && !os.IsNotExist(err) {
 		return fmt.Errorf("failed to remove old snapshot: %v", err)
 	}
 
